@@ -534,6 +534,7 @@ async fn watch_membership_changes(
     membership_changes_tx: watch::Sender<MembershipChange>,
 ) {
     let mut last_network_set = BTreeSet::new();
+    let mut last_members = NodeMembership::new();
     while let Some(members) = changes.next().await {
         info!(
             self_node_id = %self_node_id,
@@ -572,7 +573,9 @@ async fn watch_membership_changes(
 
             network.disconnect(*addr);
 
-            if let Some(member) = members.get(node_id) {
+            // The node is no longer part of the new membership (or has changed its address),
+            // so it must be described by the membership it was previously part of.
+            if let Some(member) = last_members.get(node_id) {
                 membership_changes.left.push(member.clone());
             }
         }
@@ -593,5 +596,6 @@ async fn watch_membership_changes(
 
         let _ = membership_changes_tx.send(membership_changes);
         last_network_set = new_network_set;
+        last_members = members;
     }
 }
